@@ -7,27 +7,39 @@ RULE = ("insgen instances of every instruction class with a syntax of arm, arm:t
         "avr, m68k: two base operand vectors per class, every operand sweeping its whole domain (all registers of its class; integers: every "
         "value of [-2^(n-1), 2^n) for probed width n <= 8 (quick) / 12 (thorough), boundary lattice above; every nested addressing-mode "
         "constructor option with its own sub-sweeps); thorough adds operand products/pairs.  Option variants (rvc/rvf/rvfx/x87) contribute "
-        "the classes they add to the base ISA.  A case is one instance whose direct encoding succeeds and is not a data directive; "
+        "the classes they add to the base ISA.  A case is one instance whose direct encoding succeeds and that is not a data directive; "
         "distinct non-trivial = distinct (arch, class, nested options chosen, canonical mnemonic, encoded length, verdict)")
 ASSUMPTIONS = [
-    "reference decoder: llvm-mc 14 --disassemble (arm: armv7a +hwdiv-arm, thumb: thumbv7m, riscv32 +c,+m,+f,+d -M no-aliases, x86-64 Intel "
-    "syntax, mips32r2 little endian, msp430, avr atmega2560, m68k M68020); it is trusted to print the operation and operands the bytes denote",
+    "reference decoder: llvm-mc 14 --disassemble (arm: armv7a +hwdiv-arm, thumb: thumbv7m +hwdiv, riscv32 +c,+m,+f,+d,+a -M no-aliases, x86-64 "
+    "Intel syntax, mips32r2 little endian, msp430, avr atmega2560, m68k M68020); it is trusted to print the operation and operands the bytes "
+    "denote; encodings it only flags as 'potentially undefined' (ARM UNPREDICTABLE) count as decoded",
+    "x86-64 only: a difference against LLVM stands only if GNU objdump -M intel (second independent decoder) also reads the bytes differently "
+    "from ppci's text; if objdump agrees with ppci the instance is unclassified (references disagree)",
     "or1k, xtensa, microblaze, stm8 and mcs6500 have no reference decoder in this sandbox and are excluded from the claim by name",
-    "both ppci's printed form and the reference text are reduced to (canonical mnemonic, operands) by vf/gen/asmnorm.py: register names map to "
-    "numbers through tables written from the ISA manuals (not ppci's Register.num); alias tables hold only documented assembler identities; "
-    "a pair is a violation only if both sides parse and differ",
-    "unclassified (never a violation, counted per class, class dropped from the claim): instances the normaliser cannot parse, encodings the "
-    "reference reports invalid / crashes on (LLVM 14 lacks parts of avr, m68k, msp430), zero-length encodings",
-    "label operands: only the non-label part is compared (relocated fields are C11's business); data directives (db/dw/dd/.byte/...) are not instructions",
-    "immediates are compared modulo the field width where the two syntaxes print signedness differently (riscv lui/auipc 20 bit, msp430 16 bit, "
-    "x86 operand size, m68k 16-bit displacements)",
+    "both ppci's printed form (tokenised by walking the instruction's Syntax; must reproduce str(instruction)) and the reference text are reduced "
+    "to (canonical mnemonic, operands) by vf/gen/asmnorm.py: register names map to numbers through tables written from the ISA manuals (never "
+    "ppci's Register.num); alias tables hold only assembler identities documented in the manuals (cited in the file); a pair is a violation "
+    "only if both sides parse and differ",
+    "unclassified (never a violation; counted per class and addressing-mode option; the unit is dropped from the claim by name): instances the "
+    "normaliser cannot parse, encodings the reference reports invalid or crashes on (LLVM 14 lacks parts of avr, m68k, msp430 and crashes on "
+    "msp430 'push @rN' and avr 'ldd/std q!=0': withheld), zero-length encodings.  Exception: mips Swr, invalid for certain per the manual",
+    "integer operands ppci accepts although the field cannot hold them are not inputs of this property: when the reference reads a value r "
+    "different from the printed p and ppci's own encoder maps p and r to the very same bytes (wrap modulo the field, dropped low bits, masked "
+    "bits), the bytes are the correct encoding of r and accepting p is property C10's subject (counted: n_operand_not_representable_..._C10)",
+    "label operands: only the non-label part is compared (relocated fields are C11's business; arm ADR, whose opcode bits are completed by its "
+    "relocation, is compared by register only); data directives (db/dw/dd/dq/ds/.byte/.zero/.align/.section/dcd) are not instructions",
+    "immediates are compared modulo the width where the syntaxes print signedness differently: arm/thumb 32 bit, msp430 16 bit (8 for .b), "
+    "x86 operand size and 32-bit displacements, m68k operation size and 16-bit displacements, riscv li 32 bit, c.lui 20 bit",
+    "equivalences taken as equal: mips effect-free writes to $zero = nop; msp430 constant-generator source forms (r3 = #0, @r3 = #2, @r3+ = #-1, "
+    "@r2 = #4, @r2+ = #8, X(pc) = symbolic, X(sr) = absolute) and emulated instructions; avr lsl/rol/tst/clr = add/adc/and/eor Rd,Rd; "
+    "16-bit Thumb data-processing mnemonics with and without S; riscv rvfx float operations on x registers (same encodings, Zfinx style)",
 ]
 CLAIM = {
-    "text": "Within insgen's operand domains, for every instruction class of the 8 decodable ISAs that is listed as claimed in the evidence, the bytes "
-            "ppci emits decode (LLVM 14) to the operation and operands ppci prints.",
-    "note": "Trusted base: LLVM 14 decoders, the normaliser tables in vf/gen/asmnorm.py, insgen's enumeration rule.  Classes with any unclassified "
-            "instance are dropped from the claim by name.",
-    "technique": "bounded exhaustive input enumeration, differential against an independent disassembler",
+    "text": "Within insgen's operand domains, for every instruction class (and addressing-mode option) of the 8 decodable ISAs that is listed as "
+            "claimed in the evidence, the bytes ppci emits decode (LLVM 14; x86-64 also GNU objdump) to the operation and operands ppci prints.",
+    "note": "Trusted base: LLVM 14 decoders, GNU objdump, the normaliser tables in vf/gen/asmnorm.py, insgen's enumeration rule.  Units with any "
+            "unclassified instance are dropped from the claim by name; out-of-field integer operands are left to C10.",
+    "technique": "bounded exhaustive input enumeration, differential against independent disassemblers",
     "engine": "K1",
 }
 
@@ -180,10 +192,6 @@ SURE_INVALID = {
 }
 
 
-def key_isa(an, inst):
-    return an
-
-
 def process(p, an, insts, rows=None):
     """Judge a list of instances of one architecture (one reference process)."""
     from vf.gen import asmnorm
@@ -324,7 +332,7 @@ def run(ctx):
     ctx.note("config", cfg)
     ctx.note("archs_checked", archs())
     ctx.note("isas_excluded_no_reference_decoder", list(UNDECODABLE))
-    ctx.note("data_directives_not_instructions", skipped.get("riscv", []))
+    ctx.note("data_directive_classes_not_instructions", {an: v for an, v in skipped.items() if v})
     if os.environ.get("VF_ARCHS"):
         ctx.cap("VF_ARCHS=%s restricts the architectures (development aid)" % os.environ["VF_ARCHS"])
     # heavy jobs first
@@ -355,12 +363,13 @@ def summarise(ctx):
                     d["unc"][reason] = d["unc"].get(reason, 0) + n
                 del ctx.counters[k]
     per_isa = {}
+    left_to_c10 = {}
     classes = {}      # an -> cid -> {unit: status}
     for cname in sorted(per):
         d = per[cname]
         an, unit = cname.rsplit(":", 1)
         cid = unit.split("[", 1)[0]
-        s = per_isa.setdefault(an, {"classes": 0, "classes_fully_claimed": 0, "classes_partly_claimed": 0, "classes_dropped": 0,
+        s = per_isa.setdefault(an, {"classes": 0, "classes_fully_claimed": 0, "classes_partly_claimed": 0, "classes_without_claimed_unit": 0,
                                     "classes_with_violations": 0, "units": 0, "units_claimed": 0, "instances": 0, "agree": 0,
                                     "differ": 0, "unclassified": 0, "operand_not_representable_C10": 0})
         nunc = sum(d["unc"].values())
@@ -370,6 +379,9 @@ def summarise(ctx):
         s["differ"] += d["viol"]
         s["unclassified"] += nunc
         s["operand_not_representable_C10"] += d["c10"]
+        if d["c10"]:
+            left_to_c10.setdefault(an, {})
+            left_to_c10[an][cid] = left_to_c10[an].get(cid, 0) + d["c10"]
         if d["viol"]:
             status = "violations"
         elif nunc:
@@ -395,7 +407,7 @@ def summarise(ctx):
                 partly.setdefault(an, {})[cid] = {"claimed": sorted(u for u, x in units.items() if x == "claimed"),
                                                   "not_claimed": sorted(u for u, x in units.items() if x != "claimed")}
             else:
-                s["classes_dropped"] += 1
+                s["classes_without_claimed_unit"] += 1
             for u, x in units.items():
                 if isinstance(x, dict):
                     dropped.setdefault(an, {})[u] = x
@@ -404,6 +416,7 @@ def summarise(ctx):
     ctx.note("classes_partly_claimed_by_addressing_mode", partly)
     ctx.note("units_dropped_from_claim_unclassified", dropped)
     ctx.note("classes_with_violations", violating)
+    ctx.note("classes_with_out_of_field_operands_left_to_C10", left_to_c10)
     affected = {k[len("classes:"):]: sorted(v) for k, v in ctx.sets.items() if k.startswith("classes:")}
     for k in list(ctx.sets):
         if k.startswith("classes:"):
